@@ -303,6 +303,7 @@ class AppleScriptCommentStyle(CommentStyle):
     SINGLE_LINE = "--"
     INDENT_AFTER_SINGLE = " "
     MULTI_LINE = MultiLineSegments("(*", "", "*)")
+    SHEBANGS = ["#!"]  # osascript
 
 
 class AspxCommentStyle(CommentStyle):
@@ -426,7 +427,7 @@ class HaskellCommentStyle(CommentStyle):
 
     SINGLE_LINE = "--"
     INDENT_AFTER_SINGLE = " "
-    SHEBANGS = ["cabal-version:"]
+    SHEBANGS = ["cabal-version:", "#!"]  # runhaskell, Lua
 
 
 class HtmlCommentStyle(CommentStyle):
@@ -465,6 +466,7 @@ class LispCommentStyle(CommentStyle):
     SINGLE_LINE = ";;;"
     SINGLE_LINE_REGEXP = re.compile(r"^;+\s*")
     INDENT_AFTER_SINGLE = " "
+    SHEBANGS = ["#!"]  # sbcl --script, guile, clojure, emacs --script
 
 
 class M4CommentStyle(CommentStyle):
